@@ -7,6 +7,7 @@ CONSTANT MaxCache = 1
 CONSTANT MaxGet = 1
 CONSTANT Deletes = TRUE
 CONSTANT Split = TRUE
+CONSTANT Conflicts = FALSE
 CONSTANT MaxSteps = 8
 SPECIFICATION Spec
 VIEW view
